@@ -318,7 +318,10 @@ func init() {
 	checks["C15"] = func(tier string) []*Pass {
 		if tier == "thorough" {
 			c15MaxSchedules = 400000
-			c15TripleBudget = 50000
+			c15TripleBudget = 6000 // x 343 triples
+		}
+		if v := os.Getenv("VERIF_C15_TRIPLE_BUDGET"); v != "" {
+			fmt.Sscan(v, &c15TripleBudget) // development aid
 		}
 		ps := []*Pass{
 			{Name: "pairs", Space: c15Tuples(2), Eval: evalC15, BudgetS: 15,
@@ -326,7 +329,7 @@ func init() {
 		}
 		if tier == "thorough" {
 			ps = append(ps, &Pass{Name: "triples", Space: c15Tuples(3), Eval: evalC15, BudgetS: 20,
-				Bound: "3 threads: every ordered triple from the pool; iterative context bounding: every schedule with <= b preemptions for b = 0, 1, 2, ... within a budget of 50 000 schedules per scenario (the bound completed is reported per scenario)"})
+				Bound: "3 threads: every ordered triple from the pool; iterative context bounding: every schedule with <= b preemptions for b = 0, 1, 2, ... within a budget of 6 000 schedules per scenario (the bound completed is reported per scenario)"})
 		} else {
 			ps = append(ps, &Pass{Name: "triples-sample", Space: spaceList([]Input{{E: []int{0, 1, 2}}, {E: []int{3, 4, 5}}, {E: []int{6, 2, 6}}, {E: []int{5, 0, 3}}}), Eval: evalC15, BudgetS: 20,
 				Bound: "3 threads: 4 triples from the pool; iterative context bounding: every schedule with <= b preemptions for b = 0, 1, 2, ... within a budget of 12 000 schedules per scenario (the bound completed is reported per scenario)"})
